@@ -881,7 +881,7 @@ fn c35(out: &mut Out, rng: &mut Rng, thorough: bool) {
         ];
         run_doc(out, "doc-example", t, true, &m);
     }
-    for _ in 0..400 * scale {
+    for _ in 0..1500 * scale {
         let sr = *rng.pick(&[0usize, 1, 2, 32, 63, 64, 64, 65, 66, 100, 1000]);
         let nn = rng.below(5) as usize;
         let nodes: Vec<usize> = (0..nn).map(|_| rng.below(70) as usize).collect();
@@ -1027,7 +1027,7 @@ fn c35(out: &mut Out, rng: &mut Rng, thorough: bool) {
     }
 
     // ---- structure: extra, duplicate, missing, mistyped members; malformed text
-    for _ in 0..1200 * scale {
+    for _ in 0..3000 * scale {
         let sr = *rng.pick(&[0usize, 2, 64, 64, 64, 65]);
         let nn = rng.below(4) as usize;
         let nodes: Vec<usize> = (0..nn).map(|_| rng.below(40) as usize).collect();
